@@ -983,6 +983,320 @@ func partFsize(run *hx.Run, r *hx.Rand, tmpRoot string) {
 	}
 }
 
+// ---------------------------------------------------------------------------------------
+// Part C: two (and more) concurrent atomic puts of ONE path
+
+// merge2 mirrors BufModel.Faults.merge2: true = writer a moves next; a finished writer is
+// skipped; an exhausted schedule lets a run first.
+func merge2(sched []bool, na, nb int) []byte {
+	var out []byte
+	ia, ib := 0, 0
+	for ia < na || ib < nb {
+		switch {
+		case ia >= na:
+			out = append(out, 'b')
+			ib++
+			if len(sched) > 0 {
+				sched = sched[1:]
+			}
+		case ib >= nb:
+			out = append(out, 'a')
+			ia++
+			if len(sched) > 0 {
+				sched = sched[1:]
+			}
+		case len(sched) == 0:
+			out = append(out, 'a')
+			ia++
+		case sched[0]:
+			out = append(out, 'a')
+			ia++
+			sched = sched[1:]
+		default:
+			out = append(out, 'b')
+			ib++
+			sched = sched[1:]
+		}
+	}
+	return out
+}
+
+func partConc(run *hx.Run, r *hx.Rand, tmpRoot string) {
+	// (1) scripted interleavings, driven step by step from one goroutine, compared with the model
+	n := run.N(150, 2500)
+	for i := 0; i < n; i++ {
+		cr := r.Fork(uint64(i))
+		mk := func(tag string) []string {
+			k := cr.Intn(4)
+			cs := make([]string, k)
+			for j := range cs {
+				cs[j] = tag + strconv.Itoa(j) + "x" + strconv.Itoa(cr.Intn(50))
+			}
+			return cs
+		}
+		ca, cb := mk("A"), mk("B")
+		old := "-"
+		if cr.Chance(2, 3) {
+			old = "OLD" + strconv.Itoa(cr.Intn(100))
+		}
+		// program of a writer: createTemp, writes, closeFile, rename
+		na, nb := len(ca)+3, len(cb)+3
+		sched := make([]bool, cr.Intn(na+nb+2))
+		bits := ""
+		for j := range sched {
+			sched[j] = cr.Bool()
+			bits += b01(sched[j])
+		}
+		if bits == "" {
+			bits = "-"
+		}
+		dir := filepath.Join(tmpRoot, "cc"+strconv.Itoa(i))
+		must(os.MkdirAll(dir, 0o755))
+		if old != "-" {
+			must(os.WriteFile(filepath.Join(dir, "f"), []byte(old), 0o644))
+		}
+		b, err := storageos.NewProvider().NewReadWriteBucket(dir)
+		must(err)
+		observe := func() string {
+			data, rerr := os.ReadFile(filepath.Join(dir, "f"))
+			if rerr != nil {
+				return "-"
+			}
+			return "=" + string(data)
+		}
+		type wstate struct {
+			w      storage.WriteObjectCloser
+			step   int
+			chunks []string
+		}
+		ws := map[byte]*wstate{'a': {chunks: ca}, 'b': {chunks: cb}}
+		obs := []string{observe()}
+		var stepErrs []string
+		for _, who := range merge2(sched, na, nb) {
+			st := ws[who]
+			k := st.step
+			st.step++
+			switch {
+			case k == 0:
+				w, perr := b.Put(ctx, "f", storage.PutWithAtomic())
+				if perr != nil {
+					stepErrs = append(stepErrs, fmt.Sprintf("%c put: %v", who, perr))
+				}
+				st.w = w
+			case k <= len(st.chunks):
+				if st.w != nil {
+					if _, werr := st.w.Write([]byte(st.chunks[k-1])); werr != nil {
+						stepErrs = append(stepErrs, fmt.Sprintf("%c write: %v", who, werr))
+					}
+				}
+			case k == len(st.chunks)+1:
+				// closeFile: part of Close at this level of the API
+			default:
+				if st.w != nil {
+					if cerr := st.w.Close(); cerr != nil {
+						stepErrs = append(stepErrs, fmt.Sprintf("%c close: %v", who, cerr))
+					}
+				}
+			}
+			obs = append(obs, observe())
+		}
+		run.Case("conc\t"+old+"\t"+encChunksRaw(ca)+"\t"+encChunksRaw(cb)+"\t"+bits, strings.Join(obs, ","), true)
+		run.Count("C:scripted-interleavings")
+		in := map[string]any{"old": old, "a": ca, "b": cb, "schedule": bits}
+		rp := fmt.Sprintf("build/c15 --out /tmp/c15-replay --seed %d --tier %s", run.Seed, run.Tier)
+		fullA, fullB := "="+strings.Join(ca, ""), "="+strings.Join(cb, "")
+		for j, o := range obs {
+			if o != old && !(old != "-" && o == "="+old) && o != fullA && o != fullB {
+				run.Fail(hx.OracleFailure{Class: "concurrent-atomic-put-torn", What: fmt.Sprintf("after step %d of two interleaved atomic puts the object holds %q (old %q, a %q, b %q)", j, o, old, fullA, fullB), Input: in, Replay: rp})
+				break
+			}
+		}
+		if len(stepErrs) > 0 {
+			run.Fail(hx.OracleFailure{Class: "concurrent-atomic-put-spurious-error", What: fmt.Sprintf("no fault was injected but %v", stepErrs), Input: in, Replay: rp})
+		}
+		temps, _ := filepath.Glob(filepath.Join(dir, ".tmp*"))
+		if len(temps) > 0 {
+			run.Fail(hx.OracleFailure{Class: "concurrent-atomic-put-temp-left", What: fmt.Sprintf("%d temp files left after both puts finished", len(temps)), Input: in, Replay: rp})
+		}
+		os.RemoveAll(dir)
+	}
+	// (2) real goroutines: writers hammer one path with atomic puts while a reader polls
+	rounds := run.N(3, 12)
+	for i := 0; i < rounds; i++ {
+		dir := filepath.Join(tmpRoot, "cs"+strconv.Itoa(i))
+		must(os.MkdirAll(dir, 0o755))
+		b, err := storageos.NewProvider().NewReadWriteBucket(dir)
+		must(err)
+		nw := 2 + i%3
+		contents := make(map[string]bool)
+		payload := func(w, k int) string {
+			return strings.Repeat(fmt.Sprintf("w%dk%d|", w, k), 300+37*w)
+		}
+		for w := 0; w < nw; w++ {
+			for k := 0; k < 40; k++ {
+				contents[payload(w, k)] = true
+			}
+		}
+		var wg sync.WaitGroup
+		var mu sync.Mutex
+		var putErrs []string
+		stop := make(chan struct{})
+		bad := ""
+		wg.Add(1)
+		go func() {
+			defer wg.Done()
+			for {
+				select {
+				case <-stop:
+					return
+				default:
+				}
+				data, rerr := os.ReadFile(filepath.Join(dir, "obj"))
+				if rerr == nil && !contents[string(data)] {
+					mu.Lock()
+					if bad == "" {
+						bad = fmt.Sprintf("%d bytes starting %.40q", len(data), string(data))
+					}
+					mu.Unlock()
+				}
+			}
+		}()
+		var ww sync.WaitGroup
+		for w := 0; w < nw; w++ {
+			ww.Add(1)
+			go func(w int) {
+				defer ww.Done()
+				for k := 0; k < 40; k++ {
+					if perr := bk.PutString(ctx, b, "obj", payload(w, k), storage.PutWithAtomic()); perr != nil {
+						mu.Lock()
+						putErrs = append(putErrs, perr.Error())
+						mu.Unlock()
+					}
+				}
+			}(w)
+		}
+		ww.Wait()
+		close(stop)
+		wg.Wait()
+		run.Eval()
+		run.Distinct("conc-stress-" + strconv.Itoa(i))
+		run.Count("C:goroutine-rounds")
+		in := map[string]any{"writers": nw, "puts_per_writer": 40}
+		rp := fmt.Sprintf("build/c15 --out /tmp/c15-replay --seed %d --tier %s", run.Seed, run.Tier)
+		if bad != "" {
+			run.Fail(hx.OracleFailure{Class: "concurrent-atomic-put-torn", What: "a reader polling during concurrent atomic puts saw content that is no writer's complete content: " + bad, Input: in, Replay: rp})
+		}
+		if len(putErrs) > 0 {
+			run.Fail(hx.OracleFailure{Class: "concurrent-atomic-put-spurious-error", What: fmt.Sprintf("%d of the concurrent atomic puts failed although nothing was injected, e.g. %s", len(putErrs), putErrs[0]), Input: in, Replay: rp})
+		}
+		os.RemoveAll(dir)
+	}
+}
+
+// ---------------------------------------------------------------------------------------
+// Part P: the PRODUCER of an atomic put fails (callback / source reader), no write fails
+
+type failAfterReader struct {
+	chunks []string
+	k      int
+	i      int
+}
+
+func (f *failAfterReader) Read(p []byte) (int, error) {
+	if f.i >= f.k {
+		return 0, errInjected
+	}
+	if f.i >= len(f.chunks) {
+		return 0, io.EOF
+	}
+	n := copy(p, f.chunks[f.i])
+	if n < len(f.chunks[f.i]) {
+		f.chunks[f.i] = f.chunks[f.i][n:]
+		return n, nil
+	}
+	f.i++
+	return n, nil
+}
+
+type failingSourceBucket struct {
+	storage.ReadBucket
+	chunks []string
+	k      int
+}
+
+type failingReadObject struct {
+	storage.ReadObjectCloser
+	r *failAfterReader
+}
+
+func (o failingReadObject) Read(p []byte) (int, error) { return o.r.Read(p) }
+
+func (b failingSourceBucket) Get(ctx context.Context, path string) (storage.ReadObjectCloser, error) {
+	ro, err := b.ReadBucket.Get(ctx, path)
+	if err != nil {
+		return nil, err
+	}
+	return failingReadObject{ReadObjectCloser: ro, r: &failAfterReader{chunks: append([]string{}, b.chunks...), k: b.k}}, nil
+}
+
+func partProducer(run *hx.Run, r *hx.Rand, tmpRoot string) {
+	n := run.N(40, 400)
+	for i := 0; i < n; i++ {
+		cr := r.Fork(uint64(i))
+		nch := 1 + cr.Intn(3)
+		chunks := make([]string, nch)
+		for j := range chunks {
+			chunks[j] = "p" + strconv.Itoa(j) + "x" + strconv.Itoa(cr.Intn(100))
+		}
+		old := "-"
+		if cr.Chance(2, 3) {
+			old = "OLD" + strconv.Itoa(cr.Intn(100))
+		}
+		k := cr.Intn(nch) // the producer fails before delivering chunk k (k < n: never a complete put)
+		kind := hx.Pick(cr, []string{"forwriteobject", "copy"})
+		dir := filepath.Join(tmpRoot, "pp"+strconv.Itoa(i))
+		must(os.MkdirAll(dir, 0o755))
+		if old != "-" {
+			must(os.WriteFile(filepath.Join(dir, "f"), []byte(old), 0o644))
+		}
+		b, err := storageos.NewProvider().NewReadWriteBucket(dir)
+		must(err)
+		var perr error
+		switch kind {
+		case "forwriteobject":
+			perr = storage.ForWriteObject(ctx, b, "f", func(w storage.WriteObject) error {
+				for j := 0; j < k; j++ {
+					if _, werr := w.Write([]byte(chunks[j])); werr != nil {
+						return werr
+					}
+				}
+				return errInjected
+			}, storage.PutWithAtomic())
+		case "copy":
+			src := storagemem.NewReadWriteBucket()
+			must(bk.PutString(ctx, src, "f", strings.Join(chunks, "")))
+			_, perr = storage.Copy(ctx, failingSourceBucket{ReadBucket: src, chunks: chunks, k: k}, b, storage.CopyWithAtomic())
+		}
+		final, temps := inspect(dir, "f")
+		tempS := "-"
+		if len(temps) > 0 {
+			tempS = "=" + temps[0]
+		}
+		run.Case("aproducer\t"+old+"\t"+encChunksRaw(chunks)+"\t"+strconv.Itoa(k), okErr(perr)+"|final"+final+"|temp"+tempS, true)
+		run.Count("P:" + kind)
+		in := map[string]any{"helper": kind, "old": old, "chunks": chunks, "producer_fails_before_chunk": k}
+		rp := fmt.Sprintf("build/c15 --out /tmp/c15-replay --seed %d --tier %s", run.Seed, run.Tier)
+		if perr == nil {
+			run.Fail(hx.OracleFailure{Class: "producer-failure-not-reported", What: kind + " returned nil although the producer of the content failed", Input: in, Replay: rp})
+		}
+		okOld := (old == "-" && final == "-") || final == "="+old
+		if !okOld {
+			run.Fail(hx.OracleFailure{Class: "atomic-put-producer-failure-published", What: fmt.Sprintf("%s with an atomic put: the producer failed after %d of %d chunks (no write failed), the error was returned, but the object now holds %q instead of the previous %q", kind, k, nch, final, old), Input: in, Replay: rp})
+		}
+		os.RemoveAll(dir)
+	}
+}
+
 func okErrCode(code int) string {
 	if code == 0 {
 		return "ok"
@@ -1045,5 +1359,14 @@ func main() {
 	partB(run, r.Fork(3), tmpRoot)
 	partFsize(run, r.Fork(4), tmpRoot)
 	partFlush(run, r.Fork(5), tmpRoot)
+	partConc(run, r.Fork(6), tmpRoot)
+	partProducer(run, r.Fork(7), tmpRoot)
 	run.Finish()
+}
+
+func b01(b bool) string {
+	if b {
+		return "1"
+	}
+	return "0"
 }
